@@ -807,6 +807,20 @@ func init() {
 	reg("bytes.IndexByte", func(e *Exec, fn *ssa.Function, a []Value) Value {
 		return e.tb.ConstI(64, int64(e.indexOf(bytesStr(e, a[0]), Str{[]*sym.Term{a[1].(*sym.Term)}}, 0)))
 	})
+	// the assembly kernels behind strings/bytes (reached when newer helpers such as strings.Cut are executed from source)
+	reg("internal/bytealg.IndexByteString", intrinsics["strings.IndexByte"])
+	reg("internal/bytealg.IndexByte", intrinsics["bytes.IndexByte"])
+	reg("internal/bytealg.IndexString", intrinsics["strings.Index"])
+	reg("internal/bytealg.Index", intrinsics["bytes.Index"])
+	reg("internal/bytealg.CountString", func(e *Exec, fn *ssa.Function, a []Value) Value {
+		return e.tb.Const(64, uint64(countOf(e, str(a[0]), Str{[]*sym.Term{a[1].(*sym.Term)}})))
+	})
+	reg("internal/bytealg.Count", func(e *Exec, fn *ssa.Function, a []Value) Value {
+		return e.tb.Const(64, uint64(countOf(e, bytesStr(e, a[0]), Str{[]*sym.Term{a[1].(*sym.Term)}})))
+	})
+	reg("internal/bytealg.Equal", intrinsics["bytes.Equal"])
+	reg("internal/stringslite.Index", intrinsics["strings.Index"])
+	reg("internal/stringslite.IndexByte", intrinsics["strings.IndexByte"])
 	reg("bytes.Contains", func(e *Exec, fn *ssa.Function, a []Value) Value {
 		return e.tb.Bool(e.indexOf(bytesStr(e, a[0]), bytesStr(e, a[1]), 0) >= 0)
 	})
@@ -853,6 +867,39 @@ func init() {
 	reg("strconv.Itoa", func(e *Exec, fn *ssa.Function, a []Value) Value {
 		return Str{e.formatDecimal(a[0].(*sym.Term), true)}
 	})
+	// base-10 formatting helpers of strconv (same digit model as %d); other bases run from source
+	base10 := func(e *Exec, v Value) bool {
+		t, ok := v.(*sym.Term)
+		return ok && t.IsConst() && t.Uint64() == 10
+	}
+	widen := func(e *Exec, t *sym.Term, signed bool) *sym.Term {
+		if t.W == 64 {
+			return t
+		}
+		if signed {
+			return e.tb.SExt(t, 64)
+		}
+		return e.tb.ZExt(t, 64)
+	}
+	for name, signed := range map[string]bool{"strconv.FormatInt": true, "strconv.FormatUint": false} {
+		signed := signed
+		reg(name, func(e *Exec, fn *ssa.Function, a []Value) Value {
+			if !base10(e, a[1]) {
+				return e.runBody(fn, a)
+			}
+			return Str{e.formatDecimal(widen(e, a[0].(*sym.Term), signed), signed)}
+		})
+	}
+	for name, signed := range map[string]bool{"strconv.AppendInt": true, "strconv.AppendUint": false} {
+		signed := signed
+		reg(name, func(e *Exec, fn *ssa.Function, a []Value) Value {
+			if !base10(e, a[2]) {
+				return e.runBody(fn, a)
+			}
+			digits := e.formatDecimal(widen(e, a[1].(*sym.Term), signed), signed)
+			return e.appendOp(a[0].(Slice), e.newByteSlice(digits), types.NewSlice(types.Typ[types.Uint8]))
+		})
+	}
 	reg("unicode/utf8.RuneCountInString", func(e *Exec, fn *ssa.Function, a []Value) Value {
 		return e.tb.Const(64, uint64(len(e.decodeRunes(str(a[0])))))
 	})
